@@ -301,7 +301,34 @@ fn regression_instances() -> Vec<Aff> {
     ]
 }
 
+/// A feasible system (x = (2, 131072) has slack >= 1 in every row) that `status()` reported Infeasible
+/// before /repo "fix: as_linprog scales every row ..." (found by C03 with large-weight compositions, quick
+/// seed 1 case 5768: the branch was pruned and the function changed).
+fn regression_feasible() -> Vec<Aff> {
+    vec![Aff {
+        mat: vec![vec![1.0, 0.0], vec![-1.0, -3.0517578125e-05], vec![1.0, 0.0], vec![0.0, -13184.0]],
+        bias: vec![3.0, -5.0, 3.0, -140480.0],
+    }]
+}
+
 fn run_regressions(case: u64, ev: &mut Ev) {
+    for (k, p) in regression_feasible().iter().enumerate() {
+        let n = p.indim();
+        let desc = json!({"class": "regression: false Infeasible on rows of mixed magnitude", "instance": k, "P": p.json()});
+        let lp = p.to_poly();
+        match lib(case, "status (regression instance)", || lp.status()) {
+            Ok(st) => {
+                if !handle(referee(&p.mat, &p.bias, &vec![0.0; n], &st), case, ev, "status", &desc, &st) {
+                    return;
+                }
+                ev.inc("regression_instances_answered_correctly");
+            }
+            Err(pm) => {
+                ev.violation(case, "c10:status:panic", "", json!({"case": desc, "panic": pm}));
+                return;
+            }
+        }
+    }
     for (k, p) in regression_instances().iter().enumerate() {
         let n = p.indim();
         let desc = json!({"class": "regression: minilp SingularMatrix panic", "instance": k, "P": p.json()});
